@@ -16,6 +16,8 @@ pub enum ProviderKind {
     AlwaysErr,
     /// accepts every name without empty labels that has at least two labels
     TwoLabels,
+    /// always errors, with the k-th error value of the provider interface (cannot derive / empty label / invalid suffix)
+    Failing(u8),
 }
 
 pub struct HProvider {
@@ -52,6 +54,11 @@ impl EffectiveTLDProvider for HProvider {
         match &self.kind {
             ProviderKind::Default => public_suffix::DEFAULT_PROVIDER.effective_tld_plus_one(domain),
             ProviderKind::AlwaysErr => Err(PslError::CannotDeriveETldPlus1),
+            ProviderKind::Failing(k) => Err(match k % 3 {
+                0 => PslError::CannotDeriveETldPlus1,
+                1 => PslError::EmptyLabel,
+                _ => PslError::InvalidPublicSuffix,
+            }),
             ProviderKind::TwoLabels => {
                 if domain.is_empty() || domain.split('.').any(|l| l.is_empty()) {
                     Err(PslError::EmptyLabel)
@@ -66,7 +73,9 @@ impl EffectiveTLDProvider for HProvider {
                 if domain.is_empty() || domain.split('.').any(|l| l.is_empty()) {
                     return Err(PslError::EmptyLabel);
                 }
-                psl.etld_plus_one(domain).ok_or(PslError::CannotDeriveETldPlus1)
+                // which error value says "not registrable" is the provider's business: rule sets of even size use another one
+                let n = if let ProviderKind::RuleSet(r) = &self.kind { r.len() } else { 1 };
+                psl.etld_plus_one(domain).ok_or(if n % 2 == 0 { PslError::InvalidPublicSuffix } else { PslError::CannotDeriveETldPlus1 })
             }
         }
     }
